@@ -51,7 +51,7 @@ def ENCODED():
 def cases(tier, seed):
     ns = [2, 3, 4] if tier == "thorough" else [2, 3]
     groups = ["core"] + list(RATIOS) + ["r_squared_adj"]
-    out = [f"baseline/{n}/{g}" for n in ns for g in groups] + [f"reporting/{n}" for n in ns[:2]] + ["safe_divide/0", "daily_error/3", "gate/0", "hourly_fit/plain", "hourly_fit/adaptive", "hourly_fit/real", "crosshair/leaves"]
+    out = [f"baseline/{n}/{g}" for n in ns for g in groups] + [f"reporting/{n}" for n in ns[:2]] + ["safe_divide/0", "daily_error/3", "gate/0", "hourly_fit/plain", "hourly_fit/adaptive", "hourly_fit/real", "crosshair/leaves", "conditioning/float"]
     return out
 
 
@@ -493,6 +493,60 @@ def run_hourly_real(case):
     case.sample(dict(entry="HourlyModel.fit (real, sklearn shim restored by the harness)", fits=len(paths)))
 
 
+# ----------------------------------------------------------------- float conditioning (what the real-arithmetic model cannot see)
+
+COND_LEVELS = {"kWh scale": (4.0e3, 300.0), "Wh scale": (2.5e7, 20.0), "flat load in Wh": (1.0e8, 8.0), "nearly constant": (3.0e8, 2.0)}
+
+
+def replay_conditioning(inp):
+    """the solver works over the reals; two formulas that are equal there can differ in float64 when the level of a series
+    dwarfs its spread.  Ground check against exact rational arithmetic on such series (r_squared, rmse, mbe, cvrmse)."""
+    from fractions import Fraction as Fr
+    level, spread = COND_LEVELS[inp["level"]]
+    rng = np.random.default_rng(inp["seed"])
+    n = 60
+    obs = level + spread * rng.standard_normal(n)
+    pred = obs + 0.6 * spread * rng.standard_normal(n)
+    bm = real_baseline(list(obs), list(pred), 2)
+    o, q = [Fr(float(x)) for x in obs], [Fr(float(x)) for x in pred]
+    mo, mq = sum(o) / n, sum(q) / n
+    cov = sum((a - mo) * (b - mq) for a, b in zip(o, q))
+    vo, vq = sum((a - mo) ** 2 for a in o), sum((b - mq) ** 2 for b in q)
+    r2 = float(cov * cov / (vo * vq))
+    sse = sum((a - b) ** 2 for a, b in zip(o, q))
+    rmse = float(sse / n) ** 0.5
+    want = dict(r_squared=r2, rmse=rmse, mbe=float(sum(a - b for a, b in zip(o, q)) / n), cvrmse=rmse / float(mo))
+    pr = []
+    for f, w in want.items():
+        g = getattr(bm, f)
+        if g is None or abs(float(g) - w) > 1e-7 * max(1.0, abs(w)):
+            pr.append(f"{f} = {g}, exact arithmetic gives {w} (level {level:g}, spread {spread:g}, n={n})")
+    return bool(pr), "; ".join(pr)
+
+
+REPLAY_COND = replay_conditioning
+
+
+def run_conditioning(case):
+    case.inputs = []
+
+    def run():
+        inp = dict(level=F.choose("level", list(COND_LEVELS)), seed=F.choose("seed", [1, 2, 3]))
+        return inp, replay_conditioning(inp)
+
+    paths = case.explore(run)
+    for p in paths:
+        if p.outcome != "ret":
+            case.rep["harness_errors"].append(f"conditioning scenario raised {p.value!r}")
+            continue
+        inp, (bad, det) = p.value
+        label = "statistics of series whose level dwarfs their spread agree with exact rational arithmetic (float64 conditioning)"
+        if not case.ground(not bad, label):
+            case.violation(label, "conditioning", inp, det)
+        case.regime("ill-conditioned series (level / spread > 1e7)", inp["level"] in ("flat load in Wh", "nearly constant"))
+    case.sample(dict(check="float conditioning of BaselineMetrics", series=len(paths)))
+
+
 # ----------------------------------------------------------------- second engine: CrossHair on the pure-Python leaves
 
 XH_SRC = '''
@@ -562,7 +616,7 @@ def run_crosshair(case):
     case.rep["paths"] += len(res)
 
 
-REPLAY = {"hourly_real": (lambda inp: replay_hourly_real(inp)[:2]), "xhair": replay_xhair, "hourly_fit": replay_hourly_fit, "gate": replay_gate, "baseline": replay_baseline, "safe_divide": replay_safe_divide, "reporting": replay_reporting, "daily_error": replay_daily_error}
+REPLAY = {"conditioning": replay_conditioning, "hourly_real": (lambda inp: replay_hourly_real(inp)[:2]), "xhair": replay_xhair, "hourly_fit": replay_hourly_fit, "gate": replay_gate, "baseline": replay_baseline, "safe_divide": replay_safe_divide, "reporting": replay_reporting, "daily_error": replay_daily_error}
 
 
 def daily_error(resid, obs, wsse):
@@ -593,6 +647,8 @@ def run_case(case: Case, name: str):
         return run_hourly_fit(case, name.split("/")[1])
     if kind == "crosshair":
         return run_crosshair(case)
+    if kind == "conditioning":
+        return run_conditioning(case)
     return run_daily_error(case, n)
 
 
